@@ -233,6 +233,27 @@ def rule_fields(fx, rep):
     rep.sample({"rule": "C06-FIELDS", "writer_turn": show(tp[0][1]) if tp else None, "reader_plies": show(rp[0][1])[:120] if rp else None})
     if not good:
         bad("fullmove", f"writer and reader move-number formulas are not inverse: {why}", fm)
+    # the reader installs what it parsed: Game::from_state stores each of its state parameters unchanged, and the parser hands it
+    # the parsed fields (clock: the parsed number or 0 when absent)
+    fs = fx.one("Game::from_state")
+    aggs = [(bb, st) for bb, j, st in fs.stmts() if st["k"] == "assign" and st["rv"]["k"] == "agg" and st["rv"].get("agg") == "adt" and norm(st["rv"]["adt"]) == "chess::game::Game"]
+    n += 1
+    good = len(aggs) == 1
+    wrong = []
+    if good:
+        bb, st = aggs[0]
+        m = dict(zip(st["rv"]["fields"], st["rv"]["ops"]))
+        params = {fs.local_name(i): i for i in range(1, fs.arg_count + 1)}
+        for fld in ("board", "player", "castle_rights", "en_passant_target", "halfmove_clock", "plies"):
+            if fld not in m or fld not in params:
+                continue
+            e = deep_strip(fs.expr(m[fld], expand_named=True, at=bb))
+            if not (isinstance(e, tuple) and e[:2] == ("arg", params[fld])):
+                wrong.append((fld, show(e)[:60]))
+        good = not wrong
+    rep.obligation(good)
+    if not good:
+        bad("install", f"Game::from_state does not store its parameters unchanged: {wrong or 'no single Game literal'}: what the reader parsed is not what the position holds, so writing it back gives a different text", fs)
     rep.rule("C06-FIELDS", n, 3, ok, "scalar FEN fields written from their own Game field; move-number formulas inverse")
 
 
@@ -616,6 +637,8 @@ def rule_tables(fx, rep):
 P = "src/chess/fen/fen_parser.rs"
 W = "src/chess/fen/fen_writer.rs"
 MUTANTS = [
+    {"name": "constructor caps the halfmove clock at 100 (seed C06-4b)", "expect": "C06-FIELDS/install",
+     "edits": [("src/chess/game.rs", "            en_passant_target,\n            halfmove_clock,\n            plies,\n\n            zobrist: ZobristHash::uninit(),", "            en_passant_target,\n            halfmove_clock: halfmove_clock.min(100),\n            plies,\n\n            zobrist: ZobristHash::uninit(),")]},
     {"name": "men-per-side limit removed from the reader (original defect)", "expect": "C06-CONE",
      "edits": [("src/chess/fen/fen_parser.rs", "        if board.occupancy_for(side).count() > MAX_MEN_PER_SIDE {", "        if board.occupancy_for(side).count() > 64 {")]},
     {"name": "men-per-side limit raised to 32", "expect": "C06-CONE",
